@@ -46,3 +46,14 @@ p["rule"] += (" | condpair: two clients with independent If-None-Match values (n
               "(r2 is issued while the origin holds r1's answer, deterministic three-phase overlap), then two sequential requests; compared with the handler model "
               "(the waiter is answered by the writer's validator); oracle: 304 only for a client whose own validator matches")
 p["trusted_base"] += ["condpair: the overlap is produced by the scripted origin and the srv.wait hook, not by timing"]
+
+# the composed corollary: system model x function-level theorem (proof agent; found finding C11-d on the way)
+p = PROPS["C11"]
+p["modules"] += ["RrProofs.Props.C11SysCompose"]
+p["theorems"] += [
+    T("Props.C11SysCompose.response_passes_oracle", "partial", "for every rule set and history: every response of the system model passes the generated-for oracle (Spec.C11Sys.mismatch = none) when, for the requests sharing an entry name with the receiver, SHA-1 is injective on the key strings involved (NamesInjectiveOn), the pairs are outside C11-a/b/c (OutsideClasses), no request in another storage has an unflagged key with the name of one of the receiver's opaque-origin keys (NoForeignFlagClash: finding C11-d) and the destination is defined"),
+    T("Props.C11SysCompose.response_passes_oracle_up_to_origin_value", "partial", "without NoForeignFlagClash every field but the Origin value agrees"),
+    T("Props.C11SysCompose.briefStatement_false", "negation", "without NoForeignFlagClash the corollary is false of the model (and of the code: kf.C11-d): the lock table is keyed by name only, across storages"),
+    T("Props.C11SysCompose.pair_passes", "full", "one generator/receiver pair with equal key strings in one storage outside the three classes agrees on every field the oracle tests"),
+]
+
